@@ -628,6 +628,9 @@ func codecCase(rep *Report, s *glue.Subject, d MD, idx int) {
 	nm, maxEnt := hasMaps(v)
 	if nm > 0 && marshalOK {
 		h, reps := 3, 4
+		if idx%4 == 3 {
+			h = 6 // every fourth case also in the quick tier: the clone history and second rounds of the others
+		}
 		if *flagTier == "thorough" {
 			h, reps = 6, 16
 		}
